@@ -94,6 +94,8 @@ impl<'a> AnalyzeIter<'a> {
                         // both give the same result for group 2 (start=1,
                         // end=1). So we need to go back to the original regex
                         // to determine the group nesting
+                        #[cfg(feature = "verif-hooks")]
+                        crate::verif::step(crate::verif::site::ANALYZE_ZERO_LEN_GROUP);
                         let parent_group = self.nesting_table.get(&i).unwrap();
                         // insert the start and end events immediately before
                         // the end event for the parent group, if present;
@@ -215,6 +217,8 @@ impl Iterator for AnalyzeIter<'_> {
     type Item = AnalyzeEntry;
 
     fn next(&mut self) -> Option<Self::Item> {
+        #[cfg(feature = "verif-hooks")]
+        crate::verif::step(crate::verif::site::ANALYZE_NEXT);
         if let Some(prev_end) = self.prev_end {
             if let Some(substring) = self.next_substring.take() {
                 // we've added a non-match, so now added the match that follows
